@@ -31,6 +31,8 @@ def run(ctx):
 
 def run_cfg(ctx, p, cfg):
     feats = set(p.meta.get("features", []))
+    from rules import c06
+    c06.rule_seeding(ctx, p, cfg, "E9")   # "resumes rotating": after a failed roll the reopened file's size is what the trigger is shown, so the roll is retried at once (C06.Z3 re-evaluated)
     with ctx.rule("E1", "error discipline", cfg) as r:
         cone = rotation_cone(p)
         n = 0
